@@ -608,3 +608,99 @@ Lemma example_honest_run :
   alloc (cfg_1MiB true) no_ext None example_honest = 2778 /\
   steps (cfg_1MiB true) no_ext None example_honest = 2900.
 Proof. vm_compute. repeat split; reflexivity. Qed.
+
+(* ------------------------------------------------------------------ *)
+(* CTE: the listener's accumulation of a string-like value              *)
+(* ------------------------------------------------------------------ *)
+
+(* growth of cteListener.arrayData is geometric whichever of the two append paths is taken:
+   what was allocated is at most 5 times the capacity, the capacity at most twice the
+   length (or the 64-byte first buffer), copies are paid by allocations *)
+Definition InvA (s : cacc) : Prop :=
+  c_al s <= 5 * c_cap s /\ c_cap s <= 2 * c_len s + 64 /\ c_len s <= c_cap s /\ c_work s <= c_al s + c_len s.
+
+Lemma InvA0 : InvA cacc0.
+Proof. unfold InvA; cbn. lia. Qed.
+
+Lemma rune_len_le4 c : rune_len c <= 4.
+Proof. unfold rune_len. repeat match goal with |- context [if ?b then _ else _] => destruct b end; lia. Qed.
+
+Lemma acc_text_spec k s : InvA s -> InvA (acc_text k s) /\ c_len (acc_text k s) = c_len s + k.
+Proof.
+  intros (A & B & C & D). unfold acc_text.
+  destruct (N.ltb_spec (c_cap s) (c_len s + k)) as [L|L]; unfold InvA; cbn [c_len c_cap c_al c_work].
+  - pose proof (go_grow_spec (c_cap s) (c_len s + k) L) as (G1 & G2 & G3). lia.
+  - lia.
+Qed.
+
+Lemma acc_rune_spec k s : k <= 4 -> InvA s -> InvA (acc_rune k s) /\ c_len (acc_rune k s) = c_len s + k.
+Proof.
+  intros K (A & B & C & D). unfold acc_rune.
+  set (n := if k =? 1 then 1 else 4).
+  assert (Hn : k <= n /\ n <= 4) by (unfold n; destruct (N.eqb_spec k 1); lia).
+  destruct (N.leb_spec (c_len s + n) (c_cap s)) as [L|L]; unfold InvA; cbn [c_len c_cap c_al c_work]; [lia|].
+  destruct (N.eqb_spec (c_cap s) 0) as [Z|Z]; cbn [c_len c_cap c_al c_work]; lia.
+Qed.
+
+Lemma cte_hex_len : forall inp some v v' r, cte_hex inp some v = Some (v', r) -> (length r < length inp)%nat.
+Proof.
+  induction inp as [|c t IH]; intros some v v' r E; cbn [cte_hex] in E; [discriminate|].
+  destruct (cte_hexd c).
+  - apply IH in E. cbn [length]. lia.
+  - destruct ((c =? 93) && some); [|discriminate]. inversion E; subst. cbn [length]. lia.
+Qed.
+
+Lemma cte_skip_ws_len : forall inp, (length (cte_skip_ws inp) <= length inp)%nat.
+Proof.
+  induction inp as [|c t IH]; cbn [cte_skip_ws length]; [lia|].
+  destruct (cte_ws c); cbn [length]; lia.
+Qed.
+
+Lemma cte_body_spec : forall fuel inp s s',
+  cte_body fuel inp s = Some s' -> InvA s ->
+  InvA s' /\ c_len s' <= c_len s + 4 * N.of_nat (length inp).
+Proof.
+  induction fuel as [|f IH]; intros inp s s' E I; cbn [cte_body] in E; [discriminate|].
+  destruct inp as [|c r]; [discriminate|].
+  destruct (c =? 34).
+  { destruct (forallb cte_ws r); [|discriminate]. inversion E; subst s'. split; [exact I|lia]. }
+  destruct (c =? 92).
+  { destruct r as [|e r2]; [discriminate|].
+    destruct (e =? 91).
+    { destruct (cte_hex r2 false (Some 0)) as [[[v|] r3]|] eqn:H; try discriminate.
+      apply cte_hex_len in H.
+      destruct (acc_rune_spec (rune_len v) s (rune_len_le4 v) I) as (I2 & L2).
+      destruct (IH _ _ _ E I2) as (I3 & L3). split; [exact I3|].
+      pose proof (rune_len_le4 v). cbn [length]. lia. }
+    destruct ((e =? 10) || (e =? 13)).
+    { destruct (IH _ _ _ E I) as (I3 & L3). split; [exact I3|].
+      pose proof (cte_skip_ws_len r2). cbn [length]. lia. }
+    destruct (cte_escape e) as [v|]; [|discriminate].
+    destruct (acc_rune_spec (rune_len v) s (rune_len_le4 v) I) as (I2 & L2).
+    destruct (IH _ _ _ E I2) as (I3 & L3). split; [exact I3|].
+    pose proof (rune_len_le4 v). cbn [length]. lia. }
+  destruct (cte_char_ok c); [|discriminate].
+  destruct (acc_text_spec (rune_len c) s I) as (I2 & L2).
+  destruct (IH _ _ _ E I2) as (I3 & L3). split; [exact I3|].
+  pose proof (rune_len_le4 c). cbn [length]. lia.
+Qed.
+
+(* Accumulating a string-like value costs at most 10 bytes per byte of the value (plus the
+   first 64-byte buffer five times over), the value has at most 4 bytes per code point of
+   its spelling, and the bytes copied are paid for by the bytes allocated. *)
+Lemma cte_accumulation_linear body s :
+  cte_string body = Some s ->
+  c_al s <= 10 * c_len s + 320 /\
+  c_len s <= 4 * N.of_nat (length body) /\
+  c_work s <= c_al s + c_len s.
+Proof.
+  unfold cte_string. intro E.
+  destruct (cte_body_spec _ _ _ _ E InvA0) as ((A & B & C & D) & L).
+  cbn [c_len cacc0] in L. lia.
+Qed.
+
+(* `abcdefgh\n` 1000 times and the closing quote: the escape-heavy string of 10 KB *)
+Definition example_cte_escapes : list N := lrep [97; 98; 99; 100; 101; 102; 103; 104; 92; 110] 1000 ++ [34].
+Lemma example_cte_escapes_run :
+  cte_string example_cte_escapes = Some {| c_len := 9000; c_cap := 15550; c_al := 45982; c_work := 39432 |}.
+Proof. vm_compute. reflexivity. Qed.
